@@ -2,6 +2,7 @@ import OvniModel.Emu.View
 import OvniModel.Lemmas.BayMux
 import OvniModel.Lemmas.BayTrack
 import OvniModel.Lemmas.BayBuild
+import OvniModel.Lemmas.BayTotal
 
 /-!
 # C06 — view consistency: the tracking muxes compute `thView` / `cpuView`
@@ -167,6 +168,18 @@ theorem layered_frame {b : Bay} {L : Nat}
 theorem dirtyPhase_fuel_sufficient {b : Bay} (wf : b.WF) (extra : Nat) :
     b.dirtyPhase (b.chans.length + extra) 0 = b.dirtyPhase b.chans.length 0 :=
   Bay.dirtyPhase_fuel _ _ b 0 wf (by omega) (by omega)
+
+/-- **propagate_total**: in every well-formed bay whose inputs are all
+    connected, whose select functions are defined on the current select values
+    and whose select channels are not mux outputs, `bay_propagate` succeeds: no
+    callback fails (outputs are single DIRTY_WRITE + ALLOW_DUP channels, so the
+    double write select+input and the duplicate value are accepted) and neither
+    fuel bound of the model is reached.  So the hypothesis `propagate = ok` of
+    the theorems above only excludes ill-formed select values. -/
+theorem propagate_total {b : Bay} (wf : b.WF) (sf : b.Safe) :
+    ∃ bF em, b.propagate = .ok (bF, em) := by
+  obtain ⟨⟨bF, em⟩, h⟩ := Bay.propagate_total wf sf
+  exact ⟨bF, em, h⟩
 
 /-- Same for the walk over one channel's callback list (it does not change
     while it is walked when no mux uses its own select as an input). -/
@@ -459,6 +472,43 @@ theorem ex_writes : Bay.Writes (fun c => c ≠ 3 ∧ c ≠ 4) exB exW3 :=
     (chanOp_set _) (by rfl)
 
 theorem ex_propagate : exW3.propagate = .ok exF := by rfl
+
+/-- The state before propagation is `Safe`, so `propagate_total` applies. -/
+example : exW3.Safe := by
+  have hmx : exW3.muxes = [exThreadMux, exCpuMux] := by rfl
+  have two : ∀ (P : Nat → Mux → Prop), P 0 exThreadMux → P 1 exCpuMux →
+      ∀ (mi : Nat) (m : Mux), exW3.muxes[mi]? = some m → P mi m := by
+    intro P h0 h1 mi m h
+    rw [hmx] at h
+    match mi, h with
+    | 0, h => simp at h; subst h; exact h0
+    | 1, h => simp at h; subst h; exact h1
+    | _ + 2, h => simp at h
+  constructor
+  · intro mi m i h
+    revert i
+    refine two (fun _ m => ∀ i, i < m.inputs.length → ∃ c, m.inputs[i]? = some (some c)) ?_ ?_ mi m h
+    · intro i hi; have : i = 0 := by simp [exThreadMux] at hi; omega
+      subst this; exact ⟨2, rfl⟩
+    · intro i hi; have : i = 0 := by simp [exCpuMux] at hi; omega
+      subst this; exact ⟨2, rfl⟩
+  · intro mi m j h
+    refine two (fun mi m => exW3.selOf mi = some j → j < m.inputs.length) ?_ ?_ mi m h
+    · intro hs; have : exW3.selOf 0 = some 0 := by rfl
+      rw [this] at hs; cases hs; decide
+    · intro hs; have : exW3.selOf 1 = some 0 := by rfl
+      rw [this] at hs; cases hs; decide
+  · intro mi m h
+    exact two (fun _ m => (exW3.chan m.out).isStack = false ∧ (exW3.chan m.out).dirtyWrite = true)
+      ⟨by rfl, by rfl⟩ ⟨by rfl, by rfl⟩ mi m h
+  · intro mi m h
+    exact two (fun _ m => ∃ s, m.selectInput (exW3.chan m.sel).cur = .ok s)
+      ⟨some 0, by rfl⟩ ⟨some 0, by rfl⟩ mi m h
+  · intro mi m mj m' h h'
+    revert mj m'
+    refine two (fun _ m => ∀ (mj : Nat) (m' : Mux), exW3.muxes[mj]? = some m' → m'.out ≠ m.sel) ?_ ?_ mi m h
+    · intro mj m' h'; exact two (fun _ m' => m'.out ≠ exThreadMux.sel) (by decide) (by decide) mj m' h'
+    · intro mj m' h'; exact two (fun _ m' => m'.out ≠ exCpuMux.sel) (by decide) (by decide) mj m' h'
 
 /-- The dirty list really has the select channels and the shared input,
     input between the two selects. -/
